@@ -70,6 +70,11 @@ enum Unit {
     Fan { w: usize },
     Tree { w: usize },
     Stress { w: usize },
+    /// output lists: every list of `len` output bindings over 5 nodes
+    /// (repeats, a constant and a bare variable included)
+    Outputs { len: usize },
+    /// one node bound to the first and the last output with m others between
+    FarRepeat { m: usize },
     TooSmall,
 }
 
@@ -117,6 +122,16 @@ fn units(tier: Tier) -> Vec<Unit> {
     }
     for w in [30, 40] {
         v.push(Unit::Tree { w });
+    }
+    let lmax = match tier {
+        Tier::Quick => 5,
+        Tier::Thorough => 6,
+    };
+    for len in 1..=lmax {
+        v.push(Unit::Outputs { len });
+    }
+    for m in 1..=16 {
+        v.push(Unit::FarRepeat { m });
     }
     v
 }
@@ -422,7 +437,7 @@ impl Check for C01 {
 
     fn meta(&self, tier: Tier) -> Meta {
         Meta {
-            rule: "case = (program, register budget N); programs: (a) every opcode x operand form {reg, reg/reg, same-reg, reg/imm, imm/reg, imm/imm} x value alphabet V (+op-specific boundary values) squared; (b) every DAG with 1..=n operation nodes over leaves {X,Y,2.5} and ops {neg,sub,min,add} (commutative operands ordered, identical nodes merged, every node used), root variants {last; last+first; leaf+last; const+last; orphan+last}; (c) families fan/tree/stress for every width w; each at every budget N in {3..12,16,255} under the point evaluator (3 points) and the many-point evaluator (3 lanes and 1 lane); distinct = distinct (context graph hash, N); non-trivial = tape contains at least one arithmetic op".into(),
+            rule: "case = (program, register budget N); programs: (a) every opcode x operand form {reg, reg/reg, same-reg, reg/imm, imm/reg, imm/imm} x value alphabet V (+op-specific boundary values) squared; (b) every DAG with 1..=n operation nodes over leaves {X,Y,2.5} and ops {neg,sub,min,add} (commutative operands ordered, identical nodes merged, every node used), root variants {last; last+first; leaf+last; const+last; orphan+last}; (c) families fan/tree/stress for every width w; (d) output lists: every list of up to 5 (thorough 6) output bindings over 5 nodes {x*2, y+1, x-y, 3, x} (repeated nodes, constants and bare variables as outputs) and one node bound to the first and last of m+2 outputs for m = 1..16; each at every budget N in {3..12,16,255} under the point evaluator (3 points) and the many-point evaluator (3 lanes and 1 lane); distinct = distinct (context graph hash, N); non-trivial = tape contains at least one arithmetic op".into(),
             bounds: match tier {
                 Tier::Quick => "DAG nodes <= 3 (root variants for all), family width <= 14 (+tree 30,40)".into(),
                 Tier::Thorough => "DAG nodes <= 5 (root variants for n <= 4), family width <= 24 (+tree 30,40)".into(),
@@ -629,6 +644,34 @@ impl Check for C01 {
                     check_program(cx, &mut sub, &q, &pts, &[3, 5, 12, 255]);
                 }
             }
+            Unit::Outputs { len } => {
+                // nodes: x*2, y+1, x-y, the constant 3, the bare variable x
+                let mut base = Prog::default();
+                let x = base.push(POp::Var(0));
+                let y = base.push(POp::Var(1));
+                let k2 = base.push(POp::Const(2.0));
+                let k1 = base.push(POp::Const(1.0));
+                let a = base.push(POp::Bin(B::Mul, x, k2));
+                let b = base.push(POp::Bin(B::Add, y, k1));
+                let c = base.push(POp::Bin(B::Sub, x, y));
+                let d = base.push(POp::Const(3.0));
+                let nodes = [a, b, c, d, x];
+                let pts = generic_points(2);
+                for code in 0..nodes.len().pow(len as u32) {
+                    let mut q = base.clone();
+                    q.roots = (0..len).map(|i| nodes[(code / nodes.len().pow(i as u32)) % nodes.len()]).collect();
+                    check_program(cx, &mut sub, &q, &pts, &[3, 4, 5, 255]);
+                }
+            }
+            Unit::FarRepeat { m } => {
+                // [h, a_1 .. a_m, h] and [a_1, h, a_2 .. a_m, h]: the repeated node
+                // has to survive (possibly in a spill slot) across m other outputs
+                let pts = generic_points(2);
+                for variant in 0..2 {
+                    let q = far_repeat_prog(m, variant);
+                    check_program(cx, &mut sub, &q, &pts, &BUDGETS);
+                }
+            }
             Unit::Stress { w } => {
                 // the repository's stress shape: sum over i of op(x*i + y), all
                 // opcodes as the middle op
@@ -640,6 +683,28 @@ impl Check for C01 {
             }
         }
     }
+}
+
+/// One node h = x - y bound to two outputs with m other outputs (x*k_i + y)
+/// around / between them: variant 0 = [h, a_1 .. a_m, h], variant 1 =
+/// [a_1, h, a_2 .. a_m, h]
+pub fn far_repeat_prog(m: usize, variant: usize) -> Prog {
+    let mut q = Prog::default();
+    let x = q.push(POp::Var(0));
+    let y = q.push(POp::Var(1));
+    let h = q.push(POp::Bin(B::Sub, x, y));
+    let others: Vec<usize> = (0..m)
+        .map(|i| {
+            let k = q.push(POp::Const(1.5 + i as f32));
+            let t = q.push(POp::Bin(B::Mul, x, k));
+            q.push(POp::Bin(B::Add, t, y))
+        })
+        .collect();
+    let mut r = if variant == 0 { vec![h] } else { vec![others[0], h] };
+    r.extend(&others[variant..]);
+    r.push(h);
+    q.roots = r;
+    q
 }
 
 fn cx_violation_count(_cx: &Cx) -> u64 {
